@@ -156,10 +156,13 @@ def coq_eval(pid, imports, got_terms, want_terms, shard=400, timeout=600, tag="c
             f.write("Eval vm_compute in (length got, length want, bad).\n")
         files.append((s, path))
     procs = []
+    import threading
+    sem = threading.Semaphore(14)
     for s, path in files:
-        procs.append((s, path, subprocess.Popen(
-            ["coqc", "-Q", os.path.join(COQ, "theories"), "PD"] + COQ_WARN + [path],
-            cwd=work, stdout=subprocess.PIPE, stderr=subprocess.STDOUT, text=True)))
+        procs.append((s, path, _LazyProc(sem,
+            ["coqc", "-Q", os.path.join(COQ, "theories"), "PD"] + COQ_WARN + [path], work)))
+    for _, _, p in procs:
+        p.start()
     bad = []
     t0 = time.time()
     for s, path, p in procs:
@@ -177,6 +180,35 @@ def coq_eval(pid, imports, got_terms, want_terms, shard=400, timeout=600, tag="c
         bad.extend(s + int(i) for i in idx)
     shutil.rmtree(work, ignore_errors=True)
     return sorted(bad)
+
+
+class _LazyProc:
+    """coqc run in a thread, at most N at a time"""
+
+    def __init__(self, sem, cmd, cwd):
+        import threading
+        self.sem, self.cmd, self.cwd = sem, cmd, cwd
+        self.returncode, self.out, self.proc = None, "", None
+        self.th = threading.Thread(target=self._run, daemon=True)
+
+    def start(self):
+        self.th.start()
+
+    def _run(self):
+        with self.sem:
+            self.proc = subprocess.Popen(self.cmd, cwd=self.cwd, stdout=subprocess.PIPE, stderr=subprocess.STDOUT, text=True)
+            self.out, _ = self.proc.communicate()
+            self.returncode = self.proc.returncode
+
+    def communicate(self, timeout):
+        self.th.join(timeout)
+        if self.th.is_alive():
+            raise subprocess.TimeoutExpired(self.cmd, timeout)
+        return self.out, None
+
+    def kill(self):
+        if self.proc is not None:
+            self.proc.kill()
 
 
 def coq_show(imports, term, timeout=120):
